@@ -70,7 +70,7 @@ def has_partial_list(t):
 
 
 def gen_system(rng):
-    n = rng.choice([2, 3, 4, 5, 6])
+    n = rng.choice([2, 3, 4, 5, 6, 6, 9, 12])
     vs = [V('V%d' % i) for i in range(1, n + 1)]
     eqs = []
     for i in range(n):
@@ -84,7 +84,7 @@ def gen_system(rng):
             k = rng.choice([1, 2, 2])
             t = C(rng.choice(['f', 'g']), *[rng.choice(later + CONST[:2]) for _ in range(k)])
         elif r < 0.9:
-            t = L([rng.choice(later + CONST[:2]) for _ in range(rng.choice([1, 2]))])
+            t = L([rng.choice(later + CONST[:2]) for _ in range(rng.choice([1, 2, 2, 17, 33]))])
         else:
             # open list whose tail is another variable: closed later, possibly through a chain of variables
             t = L([rng.choice(later + CONST[:2]) for _ in range(rng.choice([1, 2]))], rng.choice(later))
